@@ -117,6 +117,30 @@ CLAIMED["C16"] = dict(
     technique="Coq proof (history invariants by induction over edits) + per-step vm_compute correspondence",
     design="4/C16")
 
+CLAIMED["C14"] = dict(
+    text=("set_tagged (lazy memoized pre-order walk that mutates a node before enumerating its children), "
+          "list_tags and tag iteration modelled on the heap with in-place node updates and a tag-subclass table; "
+          "theorems: exact post-state characterisation (tagged arguments hold the value, everything else and "
+          "all tag sets unchanged), list_tags = union over reachable Buildables, tag operations act on one "
+          "argument's tag set (History model). Evaluated in Coq: the heap after set_tagged / "
+          "select(tag=).replace must equal the model's heap node for node; the oracle checks the property text "
+          "(incl. deepcopy replacement), list_tags with superclasses, tag survival through deepcopy, pickle, "
+          "copy, cast, JSON and diff application, and TaggedValues inside containers."),
+    note=COMMON_NOTE + " issubclass on Tag classes enters the model as a table computed by the harness.",
+    technique="Coq proof (frame/post-state of set_tagged) + exact heap correspondence after in-place edits",
+    design="4/C14")
+CLAIMED["C15"] = dict(
+    text=("NodeSelection (memoized leaves-first walk, matching by callable / subclass table / Buildable type), "
+          ".set, .replace (memoized rebuild where Buildables keep their identity and containers are new) and "
+          "TagSelection iteration modelled on the heap; theorems: the selected ids are exactly the reachable "
+          "matching Buildables, each once; set touches exactly those; replace preserves the identity and other "
+          "arguments of every non-matching Buildable. Evaluated in Coq against select() for all filter settings "
+          "(ids yielded, heap after set, heap after replace up to an isomorphism that fixes Buildables, values "
+          "yielded by a tag selection); independent Python oracle of the property text incl. deepcopy mode."),
+    note=COMMON_NOTE + " issubclass on configured classes enters the model as a table computed by the harness.",
+    technique="Coq proof (selection exactness, replace identity preservation) + vm_compute correspondence",
+    design="4/C15")
+
 PENDING_REASON = "check not built yet in this session (work in progress; see DESIGN.md section 4)"
 
 
